@@ -416,6 +416,7 @@ class Contour(BaseObject):
                 nextSegment[1].x = result[1][0]
                 nextSegment[1].y = result[1][1]
         # mark the contour as dirty
+        self.postNotification("Contour.PointsChanged")
         self.dirty = True
 
     # ----------------
@@ -639,6 +640,7 @@ class Contour(BaseObject):
                 if point.identifier is not None and point not in keptPoints:
                     identifiers.discard(point.identifier)
             self._points = firstPoints + newPoints + lastPoints
+            self.postNotification("Contour.PointsChanged")
             self.dirty = True
         return insertionPoint, pointWillBeSmooth
 
